@@ -115,6 +115,7 @@ func helperVer(r sem.Ver, err error, a, b sem.Ver) []int {
 }
 
 var semUniverse []string
+var errNone = errors.New("not called")
 
 func init() {
 	ops["sem.set"] = func(e Ev) Ev {
@@ -184,6 +185,22 @@ func init() {
 		e["lt"] = helperVer(lt, err, a, b)
 		la, err := sem.Latest(as, bt)
 		e["la"] = helperVer(la, err, a, b)
+		return e
+	}
+	// the six string helpers on raw texts (both operands as given)
+	ops["sem.htext"] = func(e Ev) Ev {
+		a, b := fromB(e["a"]), fromB(e["b"])
+		lat := func(v sem.Ver, err error) Ev { return Ev{"ok": err == nil, "v": verEv(v)} }
+		e["hv"], e["ht"], e["ha"] = []int{0, 0}, []int{0, 0}, []int{0, 0}
+		e["lv"], e["lt"], e["la"] = lat(sem.Ver{}, errNone), lat(sem.Ver{}, errNone), lat(sem.Ver{}, errNone)
+		e["panic"] = try(func() {
+			e["hv"] = helperInt(sem.CompareVersion[string, string](string(a), string(b)))
+			e["ht"] = helperInt(sem.CompareTag(a, string(b)))
+			e["ha"] = helperInt(sem.Compare(string(a), b))
+			e["lv"] = lat(sem.LatestVersion(a, b))
+			e["lt"] = lat(sem.LatestTag(string(a), string(b)))
+			e["la"] = lat(sem.Latest(a, string(b)))
+		})
 		return e
 	}
 	ops["sem.next"] = func(e Ev) Ev {
